@@ -6,15 +6,16 @@
 cd "$(dirname "$0")"
 export VERIF_ROOT="$(pwd)"
 seeds="${@:-1 2 3}"
-(cd sim && cargo build --release --offline >/dev/null 2>&1 && cargo build --profile relchk --offline >/dev/null 2>&1) || { echo "build failed"; exit 2; }
+PSIM="${PSIM:-sim/target/release/psim}"
+if [ "$PSIM" = "sim/target/release/psim" ]; then (cd sim && cargo build --release --offline >/dev/null 2>&1 && cargo build --profile relchk --offline >/dev/null 2>&1) || { echo "build failed"; exit 2; }; fi
 fail=0
 out=determinism.last.txt
 echo "# determinism campaign $(date -u +%Y-%m-%dT%H:%MZ), seeds: $seeds, workers 16 vs 3" > $out
 for id in C02 C03 C04 C05 C06 C08 C09 C10 C11 C12 C14 C16 C17 C18 C19 C15 C01 C07; do
   for s in $seeds; do
-    a=$(VERIF_SEED=$s VERIF_WORKERS=16 sim/target/release/psim $id noevidence=1 2>/dev/null | tail -1)
+    a=$(VERIF_SEED=$s VERIF_WORKERS=16 $PSIM $id noevidence=1 2>/dev/null | tail -1)
     ra=$?
-    b=$(VERIF_SEED=$s VERIF_WORKERS=3 sim/target/release/psim $id noevidence=1 2>/dev/null | tail -1)
+    b=$(VERIF_SEED=$s VERIF_WORKERS=3 $PSIM $id noevidence=1 2>/dev/null | tail -1)
     da=$(echo "$a" | grep -o "digest=[0-9a-f]*"); db=$(echo "$b" | grep -o "digest=[0-9a-f]*")
     ua=$(echo "$a" | grep -o "unknown_violations=[0-9]*")
     if [ "$da" = "$db" ] && [ -n "$da" ]; then line="$id seed=$s OK $da $ua"; else line="$id seed=$s DIVERGED 16w:$da 3w:$db"; fail=1; fi
